@@ -353,13 +353,13 @@ Fixpoint first_some {A B} (f : A -> option B) (l : list A) : option B :=
   | x :: r => match f x with Some d => Some d | None => first_some f r end
   end.
 
-(* x ran without arguments, y has the same key and arguments under which its outcome differs from the
-   argument-less outcome: needToRun would hand x's result to y *)
+(* x is an argument-less step that passes (its result is stored), y has the same key and test arguments
+   under which it fails: needToRun hands x's result to y *)
 Definition step_pair_defect (x y : step) : option defect :=
   match pair_defect (s_def x) (s_def y) with
   | Some d => Some d
   | None => if key_eqb (runtime_key (s_def x)) (runtime_key (s_def y)) && negb (has_args (s_args x))
-               && negb (Bool.eqb (step_outcome y) (outcome (s_def y)))
+               && outcome (s_def x) && negb (step_outcome y)
             then Some ArgsNotInKey else None
   end.
 
